@@ -170,6 +170,11 @@ impl Writer {
 		self.dest.sync() // Slow: flush + fsync to disk
 	}
 
+	/// Drops the buffered bytes without writing them (after a failed write).
+	pub(crate) fn abandon_buffer(&mut self) {
+		self.dest.abandon_buffer();
+	}
+
 	/// Closes the writer, syncing and flushing all data.
 	pub fn close(&mut self) -> Result<()> {
 		self.sync()?;
